@@ -11,6 +11,11 @@
          access:<names>                     TensorAccess::from
          transpose:<names>                  TensorTranspose::from
                                                               → ok shape=<view shape> | reject
+         prep:<op>                          what ran on the container first: cap:<k>,
+                                            reshape_mut:<n>/<l>,…, transpose_mut:<names>,
+                                            reorder_mut:<names> (matrices: cap, remove_row:<r>,
+                                            remove_column:<c>, insert_row:<r>, insert_column:<c>,
+                                            transpose_mut); the cells keep the ids they were born with
     @ stack <pos>.<name> <tuple|array> <N> <shape> [pre:<adaptor>]* <adaptor>*
                                            TensorStack of N tensors of that shape (leaf j holds ids
                                            j*100000 + offset), each under the `pre:` adaptors, the
@@ -38,6 +43,9 @@
         `nth(j)`, or `by_ref().for_each` with a closure that panics at its p-th element), then — for
         `nth` and `panic` — the records of `n` further calls on the surviving iterator, and for
         `panic` the values a fresh iterator over the same source yields afterwards
+    probe m=<checked|checked_mut|unchecked|unchecked_mut> via=boxed
+        every index of a tensor source through that getter (and, for the checked ones, one index
+        just outside the shape): the read paths the iterators do and do not use
     left [k=…] n=<calls>
         owned iteration for n calls, iterator dropped, leaf contents (`P` = placeholder)
 
@@ -45,6 +53,8 @@
   model's answer follows only if it differs (Props/C09 proves it never does).
 -/
 import EasyMl.Model.IterView
+import EasyMl.Model.Transform
+import EasyMl.Model.MatrixResize
 import EasyMl.Spec.Iter
 import Driver.Parse
 
@@ -54,8 +64,8 @@ open EasyMl EasyMl.Iter EasyMl.View Driver
 inductive Src where
   | none
   | shape (lens : List Nat)
-  | tensor (names : List String) (src : TSource Nat) (leafIds : List Nat) (mode : String)
-  | matrix (src : MSource Nat) (leafIds : List Nat) (mode : String)
+  | tensor (names : List String) (src : TSource Nat) (leafIds : List Nat) (mem : Nat → Option Nat)
+  | matrix (src : MSource Nat) (leafIds : List Nat) (mem : Nat → Option Nat)
 
 abbrev State := Src
 
@@ -344,17 +354,53 @@ def zipSource (j : Nat) (shape : List (String × Nat)) (pre : List String) : Opt
   pre.foldl (fun acc tok => acc.bind fun v => applyTensorAdaptor v tok)
     (mkTensor j shape (List.range (elements shape)))
 
+/-- the tokens carrying a prefix (stripped), and the others -/
+def splitPrefixed (pre : String) (toks : List String) : List String × List String :=
+  (toks.filterMap fun t => if t.startsWith pre then some (t.drop pre.length).toString else none,
+   toks.filter fun t => !t.startsWith pre)
+
+/-- `prep:<op>` on a tensor leaf: `cap:<k>` (spare capacity: not visible), `reshape_mut:<n>/<l>,…`,
+    `transpose_mut:<names>`, `reorder_mut:<names>`; `none` = the operation panics -/
+def applyTensorPrep (t : Tensor String Nat) (tok : String) : Option (Tensor String Nat) :=
+  let ok (o : Outcome (Tensor String Nat)) : Option (Tensor String Nat) :=
+    match o with
+    | .ok r => some r
+    | .panic _ => none
+  match tok.splitOn ":" with
+  | ["cap", _] => some t
+  | ["reshape_mut", spec] => (parseShape (spec.replace "/" ":")).bind fun sh => ok (t.reshapeMut sh)
+  | ["transpose_mut", spec] => ok (t.transposeMut (splitComma spec))
+  | ["reorder_mut", spec] => ok (t.reorderMut (splitComma spec))
+  | _ => none
+
+/-- `prep:<op>` on a matrix leaf; inserted cells get the ids 50000, 50001, … -/
+def applyMatrixPrep (m : Matrix Nat) (tok : String) : Option (Matrix Nat) :=
+  let ok (r : Matrix.Res Nat) : Option (Matrix Nat) :=
+    match r.panic with
+    | none => some r.state
+    | some _ => none
+  match tok.splitOn ":" with
+  | ["cap", _] => some m
+  | ["remove_row", a] => a.toNat?.bind fun a => ok (m.removeRow a)
+  | ["remove_column", a] => a.toNat?.bind fun a => ok (m.removeColumn a)
+  | ["insert_row", a] =>
+    a.toNat?.bind fun a => ok (m.insertRowWith a ((List.range m.columns).map (50000 + ·)))
+  | ["insert_column", a] =>
+    a.toNat?.bind fun a => ok (m.insertColumnWith a ((List.range m.rows).map (50000 + ·)))
+  | ["transpose_mut"] => ok m.transposeMut
+  | _ => none
+
 /-- split the adaptor tokens of a `@ stack` / `@ chain` header into `pre:` ones and the rest -/
 def splitPre (toks : List String) : List String × List String :=
   (toks.filterMap fun t => if t.startsWith "pre:" then some (t.drop 4).toString else none,
    toks.filter fun t => !t.startsWith "pre:")
 
-def finishTensor (mode : String) (root : Option (View String Nat)) (post : List String) :
+def finishTensor (mem : Nat → Option Nat) (root : Option (View String Nat)) (post : List String) :
     State × String :=
   match post.foldl (fun acc tok => acc.bind fun v => applyTensorAdaptor v tok) root with
   | none => (.none, "reject")
   | some v =>
-    (.tensor (v.shape.map (·.1)) (viewSource v) (viewLeafIds v) mode,
+    (.tensor (v.shape.map (·.1)) (viewSource v) (viewLeafIds v) mem,
       s!"ok shape={showShape v.shape}")
 
 def applyMatrixAdaptor (src : MSource Nat) (tok : String) : Option (MSource Nat) :=
@@ -378,7 +424,7 @@ def natArg (key : String) (toks : List String) (dflt : Nat) : Nat :=
 
 def shapeIterAnswer (lens : List Nat) (n : Nat) : String :=
   -- bare ShapeIterator: the item is the index itself
-  let rec modelRecs : Nat → ShapeIter → ShapeIter → List String
+  let rec modelRecs : Nat → Iter.ShapeIter → Iter.ShapeIter → List String
     | 0, _, _ => []
     | k + 1, it, itL =>
       let h := showHint it.sizeHint
@@ -392,7 +438,7 @@ def shapeIterAnswer (lens : List Nat) (n : Nat) : String :=
   let specRecs := (List.range n).map fun k =>
     let rem := Spec.remaining total k
     s!"{rem}/{rem}/{rem}:{((Spec.shapeItem lens k).map showIdx).getD "-"}"
-  let model := ";".intercalate (modelRecs n (ShapeIter.new lens) (ShapeIter.new lens))
+  let model := ";".intercalate (modelRecs n (Iter.ShapeIter.new lens) (Iter.ShapeIter.new lens))
   if total ≤ usizeMax then both (";".intercalate specRecs) model
   else s!"unrepresentable-length ## {model}"
 
@@ -448,7 +494,19 @@ def tensorAnswer (op0 : String) (src : TSource Nat) (leafIds : List Nat) (m0 : M
   | none => "bad-op"
   | some f =>
     answer op f wi split n leafIds (prod src.shape) shapeNext (fun it => it.sizeHint) (·.indexes)
-      src.cell (Spec.shapeItem src.shape) showIdx m0 (ShapeIter.new src.shape)
+      src.cell (Spec.shapeItem src.shape) showIdx m0 (Iter.ShapeIter.new src.shape)
+
+/-- `probe m=<getter>`: every index of the view through a getter, then (checked getters, D > 0)
+    an index just outside the shape -/
+def probeAnswer (src : TSource Nat) (toks : List String) : String :=
+  let m := (optArg "m" toks).getD "checked"
+  let total := prod src.shape
+  let cells := (List.range total).map fun k =>
+    match src.cell (Spec.unravel src.shape k) with
+    | some c => toString c
+    | none => "UB"
+  let out := "cells=" ++ (if cells.isEmpty then "-" else ",".intercalate cells)
+  if m.startsWith "checked" && !src.shape.isEmpty then out ++ " outside=-" else out
 
 def step (s : State) (toks : List String) : State × String :=
   -- `d=<mode>` on a case header: the data stored in the leaves
@@ -464,7 +522,16 @@ def step (s : State) (toks : List String) : State × String :=
     | none => (.none, "bad-op")
     | some shape =>
       let n := elements shape
-      finishTensor mode (mkTensor 0 shape (List.range n)) adaptors
+      let (preps, adaptors) := splitPrefixed "prep:" adaptors
+      -- the producers that ran on the container before it is iterated (Model/Transform.lean)
+      let leaf : Option (Tensor String Nat) :=
+        preps.foldl (fun acc p => acc.bind fun t => applyTensorPrep t p)
+          (Tensor.tryFrom shape (List.range n))
+      match leaf with
+      | none => (.none, "reject")
+      | some t =>
+        let mem : Nat → Option Nat := fun c => (t.data[c]?).map (valOf mode)
+        finishTensor mem (some (.tensor 0 t)) adaptors
   | "@" :: "stack" :: alongS :: _form :: countS :: shapeS :: rest =>
     match alongS.splitOn ".", countS.toNat?, parseShape shapeS with
     | [posS, name], some count, some shape =>
@@ -474,7 +541,7 @@ def step (s : State) (toks : List String) : State × String :=
         let (pre, post) := splitPre rest
         match (List.range count).mapM fun j => zipSource j shape pre with
         | none => (.none, "reject")
-        | some srcs => finishTensor mode (mkStack srcs (pos, name)) post
+        | some srcs => finishTensor (memOf mode) (mkStack srcs (pos, name)) post
     | _, _, _ => (.none, "bad-op")
   | "@" :: "chain" :: name :: _form :: shapesS :: rest =>
     match (shapesS.splitOn "|").mapM parseShape with
@@ -484,22 +551,36 @@ def step (s : State) (toks : List String) : State × String :=
       -- `pre:rename` changes the name of the chained dimension along with the others
       match (List.zip (List.range shapes.length) shapes).mapM fun (j, shape) => zipSource j shape pre with
       | none => (.none, "reject")
-      | some srcs => finishTensor mode (mkChain srcs name) post
+      | some srcs => finishTensor (memOf mode) (mkChain srcs name) post
   | "@" :: "matrix" :: rowsS :: colsS :: adaptors =>
     match rowsS.toNat?, colsS.toNat? with
     | some rows, some cols =>
-      let start : Option (MSource Nat) := some (MSource.ofMatrix rows cols)
-      match adaptors.foldl (fun acc tok => acc.bind fun src => applyMatrixAdaptor src tok) start with
-      | none => (.none, "bad-op")
-      | some src => (.matrix src (List.range (rows * cols)) mode, s!"ok size={src.rows}x{src.columns}")
+      let (preps, adaptors) := splitPrefixed "prep:" adaptors
+      -- the producers that ran on the matrix before it is iterated (Model/MatrixResize.lean)
+      let leaf : Option (Matrix Nat) :=
+        preps.foldl (fun acc p => acc.bind fun m => applyMatrixPrep m p)
+          (some ⟨List.range (rows * cols), rows, cols⟩)
+      match leaf with
+      | none => (.none, "reject")
+      | some m =>
+        let start : Option (MSource Nat) := some (MSource.ofMatrix m.rows m.columns)
+        let mem : Nat → Option Nat := fun c => (m.data[c]?).map (valOf mode)
+        match adaptors.foldl (fun acc tok => acc.bind fun src => applyMatrixAdaptor src tok) start with
+        | none => (.none, "bad-op")
+        | some src =>
+          (.matrix src (List.range m.data.length) mem, s!"ok size={src.rows}x{src.columns}")
     | _, _ => (.none, "bad-op")
   | op :: rest =>
-    if op = "iter" || op = "left" || op = "consume" then
+    if op = "probe" then
+      match s with
+      | .tensor _ src _ _ => (s, probeAnswer src rest)
+      | _ => (s, "no-source")
+    else if op = "iter" || op = "left" || op = "consume" then
       match s with
       | .none => (s, "no-source")
       | .shape lens => (s, shapeIterAnswer lens (natArg "n" rest 0))
-      | .tensor _ src leafIds mode => (s, tensorAnswer op src leafIds (memOf mode) rest)
-      | .matrix src leafIds mode => (s, matrixAnswer op src leafIds (memOf mode) rest)
+      | .tensor _ src leafIds mem => (s, tensorAnswer op src leafIds mem rest)
+      | .matrix src leafIds mem => (s, matrixAnswer op src leafIds mem rest)
     else (s, "bad-op")
   | _ => (s, "bad-op")
 
